@@ -274,10 +274,12 @@ fn coarse(v: &MV, m: i64) -> i64 {
 fn mv_to_item(v: &MV) -> Item {
     match v {
         MV::Int(i) => toml_edit::value(*i),
-        MV::Tbl => Item::Table(Table::new()),
+        // sub-tables carry three entries in an order that is neither sorted nor reverse sorted: an
+        // operation on the parent must leave them alone
+        MV::Tbl => Item::Table(inner_table()),
         MV::Aot => {
             let mut a = ArrayOfTables::new();
-            a.push(Table::new());
+            a.push(inner_table());
             Item::ArrayOfTables(a)
         }
         MV::Inl(kv) => {
@@ -297,11 +299,28 @@ fn mv_to_value(v: &MV) -> Value {
     mv_to_item(v).into_value().unwrap_or_else(|_| Value::from(-1))
 }
 
+const INNER: [(&str, i64); 3] = [("z", 1), ("a", 2), ("m", 3)];
+
+fn inner_table() -> Table {
+    let mut t = Table::new();
+    for (k, v) in INNER {
+        t.insert(k, toml_edit::value(v));
+    }
+    t
+}
+
+fn inner_intact(t: &Table) -> bool {
+    t.iter().map(|(k, v)| (k, v.as_integer())).eq(INNER.iter().map(|(k, v)| (*k, Some(*v))))
+}
+
 fn item_to_mv(i: &Item) -> MV {
     match i {
         Item::None => MV::Hidden,
-        Item::Table(_) => MV::Tbl,
-        Item::ArrayOfTables(_) => MV::Aot,
+        Item::Table(t) if inner_intact(t) => MV::Tbl,
+        Item::ArrayOfTables(a) if a.len() == 1 && a.iter().all(inner_intact) => MV::Aot,
+        // a sub-table whose own entries were touched by an operation on its parent
+        Item::Table(t) => MV::Inl(t.iter().map(|(k, v)| (format!("<sub-table entry> {k}"), item_to_mv(v))).collect()),
+        Item::ArrayOfTables(a) => MV::Inl(vec![(format!("<array of tables with {} elements, entries touched>", a.len()), MV::Aot)]),
         Item::Value(v) => value_to_mv(v),
     }
 }
@@ -438,10 +457,47 @@ fn obs_map(m: &toml::map::Map<String, toml::Value>) -> Result<Obs, String> {
     };
     let text = toml::to_string(m).map_err(|e| e.to_string())?;
     let printed = printed_entries(&text, &|_| None)?;
+    // every iterator of the map, forwards and backwards, tells the same story
+    let fwd: Vec<(String, MV)> = m.iter().map(|(k, v)| (k.clone(), tv(v))).collect();
+    let mut variants: Vec<(&str, Vec<(String, MV)>)> = Vec::new();
+    let mut b: Vec<(String, MV)> = m.iter().rev().map(|(k, v)| (k.clone(), tv(v))).collect();
+    b.reverse();
+    variants.push(("iter().rev()", b));
+    let mut b: Vec<(String, MV)> = m.keys().rev().cloned().zip(m.values().rev().map(tv)).collect();
+    b.reverse();
+    variants.push(("keys().rev() / values().rev()", b));
+    let mut b: Vec<(String, MV)> = m.clone().into_iter().rev().map(|(k, v)| (k, tv(&v))).collect();
+    b.reverse();
+    variants.push(("into_iter().rev()", b));
+    variants.push(("keys() / values()", m.keys().cloned().zip(m.values().map(tv)).collect()));
+    let mut ends = Vec::new();
+    let mut it = m.iter();
+    let mut tail = Vec::new();
+    loop {
+        match it.next() {
+            Some((k, v)) => ends.push((k.clone(), tv(v))),
+            None => break,
+        }
+        match it.next_back() {
+            Some((k, v)) => tail.push((k.clone(), tv(v))),
+            None => break,
+        }
+    }
+    tail.reverse();
+    ends.extend(tail);
+    variants.push(("alternating next() / next_back()", ends));
+    for (name, v) in variants {
+        if v != fwd {
+            return Err(format!("REVERSE {name} gives {v:?} where iter() gives {fwd:?}"));
+        }
+    }
+    if m.iter().len() != fwd.len() || m.keys().len() != fwd.len() || m.values().len() != fwd.len() || m.iter().size_hint() != (fwd.len(), Some(fwd.len())) {
+        return Err(format!("REVERSE len() / size_hint() of the iterators disagree with the {} entries iterated", fwd.len()));
+    }
     Ok(Obs {
         len: m.len(),
         is_empty: m.is_empty(),
-        iter: m.iter().map(|(k, v)| (k.clone(), tv(v))).collect(),
+        iter: fwd,
         gets: KEYS.iter().map(|k| m.get(*k).map(tv)).collect(),
         contains: KEYS.iter().map(|k| m.contains_key(*k)).collect(),
         kv_keys: KEYS.iter().map(|k| m.get_key_value(*k).map(|(key, _)| key.clone())).collect(),
@@ -1028,7 +1084,10 @@ impl C16 {
             let o = match o {
                 Ok(Ok(o)) => o,
                 Ok(Err(e)) => {
-                    ctx.violation(&format!("print-invalid:{label}"), format!("{label} after step {step} {op:?}: {e}"));
+                    match e.strip_prefix("REVERSE ") {
+                        Some(rest) => ctx.violation(&format!("state-differs:{label}:iterators-disagree"), format!("{label} after step {step} {op:?}: {rest}")),
+                        None => ctx.violation(&format!("print-invalid:{label}"), format!("{label} after step {step} {op:?}: {e}")),
+                    }
                     return;
                 }
                 Err((loc, msg)) => {
